@@ -15,7 +15,7 @@ import (
 
 func TestMain(m *testing.M) { kit.Main(m) }
 
-const rule = "node-family scenarios (DAGs, diamonds, cycles with tails; eager/lazy/primary/required variants; 0-3 observing post-processors, some ordered; a literal value field per node) started with drawn orders; oracle over the event log: per created component exactly one pass before* < AfterPropertiesSet < Init < after*, nothing populated after the first before-callback, dependencies that do not depend back are fully initialised before the dependant's Init, lazy components have events iff some created component holds them; non-trivial = a diamond (component held by >=2 holders), a reached lazy component, or a cycle with an acyclic tail; distinct by scenario shape + observer set"
+const rule = "node-family scenarios (DAGs, diamonds, cycles with tails; eager/lazy/primary/required variants; 0-3 observing post-processors, some ordered; a literal value field per node) started with drawn orders; oracle over the event log: per created component exactly one pass before* < AfterPropertiesSet < Init < after*, nothing populated after the first before-callback, dependencies that do not depend back are fully initialised before the dependant's Init, lazy components have events iff some created component holds them; non-trivial = a diamond (component held by >=2 holders), a reached lazy component, or a cycle with an acyclic tail; distinct by scenario shape + observer set; since rounds 7/8 also a vetoing before-initialization callback, initialization methods that panic, and look-alike-name lookups after the start (no callback runs again)"
 
 type fataler interface{ Fatalf(string, ...any) }
 
